@@ -652,6 +652,9 @@ class SymArr:
             if len(i) != 1:
                 raise IndexError("too many indices for array")
             (i,) = i
+        if isinstance(i, float) or (not isinstance(i, (int, SymNum, SymBool, slice))):
+            # numpy: only integers, slices ... are valid indices
+            raise IndexError("only integers are valid indices")
         return i
 
     def copy(self):
